@@ -374,9 +374,17 @@ class PDFStandardSecurityHandler:
         self.init()
 
     def init(self) -> None:
-        self.init_params()
+        try:
+            self.init_params()
+        except (KeyError, TypeError):
+            # a required entry is missing or has a value of the wrong type
+            error_msg = "Invalid encryption dictionary: param=%r" % self.param
+            raise PDFEncryptionError(error_msg)
         if self.r not in self.supported_revisions:
             error_msg = "Unsupported revision: param=%r" % self.param
+            raise PDFEncryptionError(error_msg)
+        if self.length <= 0 or self.length % 8 != 0:
+            error_msg = "Invalid key length: param=%r" % self.param
             raise PDFEncryptionError(error_msg)
         self.init_key()
 
